@@ -29,6 +29,10 @@ Fixpoint while_fuel {S : Type} (fuel : nat) (c : S -> bool) (f : S -> S) (s : S)
   | Datatypes.S n => if c s then while_fuel n c f (f s) else (s, true)
   end.
 
+(* numba signature "i4(...)": an int result is reduced to the int32 range.  Python ints are otherwise unbounded [Z]:
+   int64 overflow is NOT modelled (link theorems that depend on it must bound the operands). *)
+Definition wrap32 (z : Z) : Z := ((z + 2147483648) mod 4294967296 - 2147483648)%Z.
+
 Definition zlen {A : Type} (l : list A) : Z := Z.of_nat (length l).
 Definition wrap_index (len i : Z) : Z := if (i <? 0)%Z then (len + i)%Z else i.
 
